@@ -29,15 +29,24 @@ func (c03) Exec(op string) string {
 func (c03) Gen(r *hx.Run) {
 	rng := r.Rng
 	hex := func(s string) string { return hx.Hex([]byte(s)) }
-	binKeys := []string{"x" + hex("a\r\nb"), "x" + hex("\x00"), "x" + hex("{tag}1"), "x" + hex("{tag}2"), "x" + hex("k{}x"), "x" + hex("\xff\xfe"), "x" + hex("*1\r\n$1\r\n"), "x" + hex(" ")}
+	binKeys := []string{"x" + hex("a\r\nb"), "x" + hex("\x00"), "x" + hex("{tag}1"), "x" + hex("{tag}2"), "x" + hex("k{}x"), "x" + hex("\xff\xfe"), "x" + hex("*1\r\n$1\r\n"), "x" + hex(" "), "x" + hex("}{tag}1"), "x" + hex("a}b{c}d"), "x" + hex("}}{{x}}")}
 	plain := []string{"a", "b", "c", "d", "e", "f", "g", "h", "i10", "j11"}
 	vals := []string{"-", hex("v"), hex("\r\n"), hex("\x00\x01"), hex("+OK\r\n"), hex("$-1\r\n"), hex("123"), hex("-5"), hex("9223372036854775807"), hex("abc def")}
 	basic := []string{
 		"3 3 sa:31 ga gb", "3 3 Ma:31.b:32.c:33.d:34 ma.b.c.d.e da.b.e ea.b.c.d ma.b.c.d", "3 3 ia ia sa:" + hex("x") + " ia", "1 1 sa:31 ga ma.b da.a",
 		"4 4 L7 Ma:31.b:32.c:33.d:34.e:35.f:36 ma.b.c.d.e.f la aa:3132 la ta:39 ga na:38 nz:38 gz",
 		"3 3 L3 s" + binKeys[0] + ":" + vals[2] + " g" + binKeys[0] + " m" + binKeys[0] + "." + binKeys[1] + " s" + binKeys[2] + ":31 s" + binKeys[3] + ":32 m" + binKeys[2] + "." + binKeys[3],
-		"3 3 ba:70000:3 ga la aa:31 la C ga", "2 2 L5 bbig:1048576:9 gbig lbig dbig gbig",
+		"3 3 ba:70000:3 ga la aa:31 la C ga",
+		"3 3 L11 sx7d7b7461677d31:31 sx617d627b637d64:32 sx7d7d7b7b787d7d:33 mx7d7b7461677d31.x617d627b637d64.x7d7d7b7b787d7d",
+		"3 3 { sa:31 sb:32 sc:33 ga gb gc ma.b.c } { sa:34 ga sb:35 gb } ga", "2 2 L5 bbig:1048576:9 gbig lbig dbig gbig",
 	}
+	kb := keysByNode()
+	k0, k1, k2 := kb[0][0], kb[1][0], kb[2][0]
+	basic = append(basic,
+		// status replies of a fast node parked behind the reply of a slow node, while the fast node keeps answering
+		fmt.Sprintf("3 3 s%s:%s D0:40 { g%s s%s:%s g%s s%s:%s g%s s%s:%s g%s g%s } D0:0 g%s g%s", k0, hex("zero"), k0, k1, hex("first"), k1, kb[1][1], hex("second-value"), kb[1][1], kb[1][2], hex("third"), kb[1][2], k2, k1, k0),
+		fmt.Sprintf("3 3 D2:30 { g%s s%s:31 i%s i%s n%s:32 l%s s%s:33 g%s } g%s", k2, k1, kb[1][1], kb[1][1], k1, k1, k0, k0, k2),
+	)
 	for _, b := range basic {
 		r.Do("c03.cl "+b, true, "basic")
 	}
